@@ -294,7 +294,9 @@ def x5t_history(keys_mode, accept, obs):
     steps = [('x5t before the chain was ever seen', dtn_ms(2030), True), ('x5chain, created within validity', dtn_ms(2025), False),
              ('x5t only, created within validity (chain known by now)', dtn_ms(2031), True),
              ('x5t only, created after the certificate expired', dtn_ms(2041), True), ('x5chain, created after the certificate expired', dtn_ms(2042), False),
-             ('x5chain, created before the certificate was valid', dtn_ms(2019), False), ('x5t only, created within validity again', dtn_ms(2033), True)]
+             ('x5chain, created before the certificate was valid', dtn_ms(2019), False), ('x5t only, created within validity again', dtn_ms(2033), True),
+             ('x5chain, creation time beyond the calendar (2^62 ms)', 2 ** 62, False), ('x5t only, creation time 2^64-1', 2 ** 64 - 1, True),
+             ('x5chain, creation time in the year 12000', dtn_ms(9999) + 2001 * 365 * 86400000, False)]
     sim = Sim(0, 'eager')
     dst = sh.receiver_node(sim, keys_mode, accept=accept)
     oracle = sh.oracle_keys(keys_mode)
@@ -335,6 +337,7 @@ def cases(tier, seed):
             out.append(dict(id='%s-%s' % (cls, variant), cls=cls, variant=variant, seed=seed * 37 + idx, reps=(30 if tier == 'thorough' else 1)))
             idx += 1
     out.append(dict(id='x5t-history', cls='x5t-history', variant='bib', seed=seed, reps=1))
+    out.append(dict(id='cert-variants', cls='cert-variants', variant='bib', seed=seed, reps=1))
     return out
 
 
@@ -354,6 +357,28 @@ def run_case(case):
                         violations.append(dict(key=None, what='[%s] keys=%s accept=%s: %s' % (kind, keys, accept, text), detail=detail))
                     classes.add('x5t-history|%s|%s' % (keys, accept))
                     evaluations += 1
+            case = dict(case, reps=0)
+        if case['cls'] == 'cert-variants':
+            # signed under certificates that are not the security source's (wrong key by identity): never delivered
+            from vf.world.sim import Sim
+            for vname in sh.CERT_VARIANTS:
+                for accept in (False, True):
+                    data = sh.sign1_variant_bundle(vname, rng, seq=3, plen=12, crc=1)
+                    verdict, why = cb.verify_bundle(data, sh.oracle_keys('all'))
+                    dst, err, res, sim = receive(data, 'all', accept)
+                    obs['bundles'] += 1
+                    evaluations += 1
+                    classes.add('cert-variants|%s|%s' % (vname, accept))
+                    got = len(dst.delivered())
+                    if verdict == 'ok':
+                        obs['expect_deliver'] += 1
+                        if got != 1:
+                            violations.append(dict(key=None, what='[not-delivered] certificate variant %s verifies but %d deliveries' % (vname, got), detail=dict(bundle=data.hex())))
+                    else:
+                        obs['expect_fail'] += 1
+                        if got or err is not None:
+                            violations.append(dict(key=None, what='[delivered] Sign1 block under certificate variant "%s", accept=%s: %s (%s)' % (
+                                vname, accept, 'delivered although it is not the key of the security source' if got else 'exception escaped', why[:60]), detail=dict(bundle=data.hex())))
             case = dict(case, reps=0)
         for rep in range(case['reps']):
             for keys in ('all', 'wrong', 'none'):
